@@ -176,7 +176,7 @@ PROPS = {
                       "collision-free stamp), NumbersDirect (full), TimestampsDirect (guarded: an appending run must find the newest stamp without .restart siblings; the "
                       "unguarded statement is proved FALSE = known finding), non-rotating writer with append; no existing name is ever reused (fresh_names_*). "
                       "Differential check on multi-run histories incl. same-second restarts; stream oracle across runs incl. the documented truncation.",
-        "level_note": "Theorems are without cleanup; restarts combined with cleanup/compression are validated by the correspondence check only (C06's own histories with cleanup strategies, C07's generator). "
+        "level_note": "Without cleanup: the stream theorems above. WITH cleanup (Props/C06Cleanup, all four namings, append/capacity/suffix per run, same rotation configuration): what is on disk is exactly the newest kk+m(+1) files of the un-cleaned multi-run log, hence a contiguous tail of everything logged by all runs, on file boundaries (restart_cleanup_keeps_newest, restart_cleanup_tail, restart_cleanup_vs_uncleaned); indexes and stamps chosen at a restart are fresh with respect to every file on disk, plain or compressed; for Numbers/NumbersDirect the names on disk and their contents are characterised exactly (rotated_names_*, name_content_numbers; with (k,m)=(0,0) under Numbers the index restarts at 0 after everything was removed - no existing file is overwritten). TimestampsDirect with an appending restart needs the guard TsdGuard; without it records are LOST, not only reordered (tsd_append_cleanup_violation_witness: the known finding, with cleanup). "
                       "Formats: the standard one, two more year-first ones, and a day-first custom format whose text order is not the time order (without cleanup; directed histories across month ends). "
                       "Two genuine defects repaired (fix 1fbd892 gz index, fix bec99bb same-second truncation); one known finding (TimestampsDirect+append).",
         "correspondence": "Flw model (initState from the directory as it is) vs new FileLogWriter instances on the same directory",
